@@ -1190,55 +1190,35 @@ def pad_stats(array, pad_width, mode, stat_length):
 
     stat_length = expand_pad_value(array, stat_length)
 
-    result = np.empty(array.ndim * (3,), dtype=object)
-    for idx in np.ndindex(result.shape):
-        axes = []
-        select = []
-        pad_shape = []
-        pad_chunks = []
-        for d, (i, s, c, w, l) in enumerate(
-            zip(idx, array.shape, array.chunks, pad_width, stat_length)
-        ):
-            if i < 1:
-                axes.append(d)
-                select.append(slice(None, l[0], None))
-                pad_shape.append(w[0])
-                pad_chunks.append(w[0])
-            elif i > 1:
-                axes.append(d)
-                # a stat_length longer than the axis means the whole axis (as in NumPy)
-                select.append(slice(max(s - l[1], 0), None, None))
-                pad_shape.append(w[1])
-                pad_chunks.append(w[1])
-            else:
-                select.append(slice(None))
-                pad_shape.append(s)
-                pad_chunks.append(c)
+    reduction = {"maximum": "max", "mean": "mean", "minimum": "min"}[mode]
 
-        axes = tuple(axes)
-        select = tuple(select)
-        pad_shape = tuple(pad_shape)
-        pad_chunks = tuple(pad_chunks)
-
-        result_idx = array[select]
-        if axes:
-            if mode == "maximum":
-                result_idx = result_idx.max(axis=axes, keepdims=True)
-            elif mode == "mean":
-                result_idx = result_idx.mean(axis=axes, keepdims=True)
-            elif mode == "minimum":
-                result_idx = result_idx.min(axis=axes, keepdims=True)
-
-            result_idx = broadcast_to(result_idx, pad_shape, chunks=pad_chunks)
-
+    # Like NumPy, pad one axis after the other: the statistics of an axis are
+    # taken over the array as padded so far (and rounded per axis for integers).
+    result = array
+    for d, ((before, after), (len_before, len_after)) in enumerate(
+        zip(pad_width, stat_length)
+    ):
+        if before == 0 and after == 0:
+            continue
+        size = result.shape[d]
+        selections = (
+            slice(None, len_before, None),
+            # a stat_length longer than the axis means the whole axis (as in NumPy)
+            slice(max(size - len_after, 0), None, None),
+        )
+        pads = []
+        for width, selection in zip((before, after), selections):
+            region = result[(slice(None),) * d + (selection,)]
+            stat = getattr(region, reduction)(axis=d, keepdims=True)
+            pad_shape = result.shape[:d] + (width,) + result.shape[d + 1 :]
+            pad_chunks = result.chunks[:d] + ((width,),) + result.chunks[d + 1 :]
+            stat = broadcast_to(stat, pad_shape, chunks=pad_chunks)
             if mode == "mean":
                 if np.issubdtype(array.dtype, np.integer):
-                    result_idx = rint(result_idx)
-                result_idx = result_idx.astype(array.dtype)
-
-        result[idx] = result_idx
-
-    result = block(result.tolist())
+                    stat = rint(stat)
+                stat = stat.astype(array.dtype)
+            pads.append(stat)
+        result = concatenate([pads[0], result, pads[1]], axis=d)
 
     return result
 
